@@ -53,10 +53,12 @@ def stubs_for(c, inst, log):
 
 
 def cap_callback(c, cap, kind):
-    state = dict(n=0)
+    state = dict(n=0, increments=[])
 
     def cb(system):
         state["n"] += 1
+        # the increment of the attempt the integrator accepted for this step (public attributes of the integrator)
+        state["increments"].append((len(system.t) - 1, system.integrator.dTime, list(flat(c, system.integrator.dState))))     # copied: some integrators update dState in place
         if state["n"] > cap:
             if kind == "fixed":
                 raise StepCap("more than %d steps" % cap)
@@ -103,3 +105,18 @@ def segment_checks(c, P, a, i0, t_start, target, y_start=None, regions=None):
 
 def status_ok(a):
     return a.integration_status == "Integration completed successfully." and bool(a.success)
+
+
+def pairing_checks(c, P, a, cb, regions=None):
+    """times and states stay paired: every recorded row advances time AND state by the increment (dTime, dState) of the same accepted attempt"""
+    ok_t, ok_y = [], []
+    for (row, dT, dY) in cb.state["increments"]:
+        if row < 1 or row >= len(a.t):
+            continue
+        ok_t.append(c.eq(a.t[row] - a.t[row - 1], dT, 64))
+        fa = flat(c, a.y[row] - a.y[row - 1])
+        fb = flat(c, dY)
+        ok_y.append(len(fa) == len(fb) and c.all([c.eq(u, v, 64) for u, v in zip(fa, fb)]))
+    if ok_t:
+        c.check(P + ".recorded_time_increment_is_the_accepted_attempts", c.all(ok_t), regions=regions)
+        c.check(P + ".recorded_state_increment_is_the_accepted_attempts", c.all(ok_y), regions=regions)
